@@ -1,16 +1,19 @@
 /-
   Property C09 — the proxy signs eth_sendTransaction for `from`, relays everything else unchanged.
   Model: FFS.Model.Proxy (rpcprocessor.go, rpchandler.go, rpcbackend.SyncRequest) for every request, wallet and
-  backend script. The signing step itself is abstracted as `Fwd.rawTx a tx n` = "an eth_sendRawTransaction whose
-  payload is wallet.Sign(tx with nonce n) for address a": that such a payload recovers to `a` with the fields of
-  `tx` is C01 / C05 / C08 (`sign_only_owner`), and is re-checked end to end by the harness, which recovers every
-  raw transaction the real backend received.
+  backend script. A forwarded `Fwd.rawTx a tx n fields raw` carries the bytes `raw` the wallet's `Sign` returned for
+  the transaction `fields` decoded from the request object `tx` with nonce `n`. `submitted_recovers` composes this
+  with C08 (the wallet signs with the key owning the address: `OwnerSigning`) and C01 (`recover_sign_auto`): the
+  submitted bytes recover, under the proxy's chain id, to `from` with the requested fields and nonce. The harness
+  recovers every raw transaction the real backend received and compares address and fields with the model's.
   Concurrency: the model assigns response slot i to member i (`batchReply` is a `map`); the real handler writes
   slot i from goroutine i and waits for all of them — that is the only schedule-dependent part and is exercised
   by the harness (batches up to 64 against the real process), not proved here.
 -/
 import FFS.Model.Proxy
 import FFS.Props.C16
+import FFS.Props.C01
+import FFS.Props.C19
 namespace FFS.Props.C09
 open Lean FFS FFS.Model.Proxy FFS.Gen.ProxyFacts
 
@@ -44,14 +47,16 @@ theorem syncRequest_failure (script : Script) (id : Json) (m : String)
   unfold syncRequest
   rcases h with h | h <;> simp [h, errResp, httpErrorBuildsError]
 
-theorem signAndSend_id (w : Wallet) (script : Script) (id : Json) (fwds : List Fwd) (f p0 : Json) (n : Option Nat) :
-    (signAndSend w script id fwds f p0 n).2.1.id = id := by
+theorem signAndSend_id (w : Wallet) (script : Script) (id : Json) (fwds : List Fwd) (f p0 : Json) (n : Option Nat)
+    (tx : Model.Tx.Tx) : (signAndSend w script id fwds f p0 n tx).2.1.id = id := by
   unfold signAndSend
   split
   · rfl
   · split
     · rfl
-    · exact syncRequest_id _ _ _
+    · split
+      · exact syncRequest_id _ _ _
+      · rfl
 
 theorem sendTransaction_id (mem : Members) (w : Wallet) (script : Script) (id : Json) (params : List Json) :
     (sendTransaction mem w script id params).2.1.id = id := by
@@ -64,7 +69,7 @@ theorem sendTransaction_id (mem : Members) (w : Wallet) (script : Script) (id : 
     · split
       · simp [badFromIsError, errResp]
       · rfl
-      · exact signAndSend_id _ _ _ _ _ _ _
+      · exact signAndSend_id _ _ _ _ _ _ _ _
 
 /-- **Each response carries the request's own id.** -/
 theorem response_id (mem : Members) (w : Wallet) (script : Script) (r : Req) (id : Json) (h : r.id = some id) :
@@ -95,7 +100,7 @@ theorem passthrough (mem : Members) (w : Wallet) (script : Script) (r : Req) (id
   simp [h, isAccountsMethod, h1, h2, h3]
 
 def isRaw : Fwd → Bool
-  | .rawTx _ _ _ => true
+  | .rawTx _ _ _ _ _ => true
   | .plain _ _ => false
 
 def lookupFwds : NonceLookup → List Fwd
@@ -150,13 +155,14 @@ theorem nonceLookup_definite (script : Script) (f : Json) (nonce : Option Nat) (
     (h : nonceLookup script f nonce = .got fwds n) : n.isSome = true := by
   rcases nonceLookup_nonce script f nonce fwds n h with ⟨k, _, hn, _⟩ | ⟨_, a, k, _, _, hn, _⟩ <;> simp [hn]
 
-/-- **eth_sendTransaction: at most one raw transaction reaches the backend, and it is signed for `from`,
-    which the wallet holds, over the request's own transaction object and the supplied / reported nonce.** -/
+/-- **eth_sendTransaction: at most one raw transaction reaches the backend; its bytes are what the wallet's
+    `Sign` returned for `from` (which the wallet holds) and for the transaction decoded from the request's own
+    object with the supplied / reported nonce.** -/
 theorem sendTransaction_forwards (mem : Members) (w : Wallet) (script : Script) (id : Json) (params : List Json) :
     let fwds := (sendTransaction mem w script id params).1
     (fwds.filter isRaw).length ≤ 1 ∧
-    ∀ a tx n, Fwd.rawTx a tx n ∈ fwds →
-      a ∈ w.accounts ∧
+    ∀ a tx n fields raw, Fwd.rawTx a tx n fields raw ∈ fwds →
+      a ∈ w.accounts ∧ fields = txOfJson (mem tx) n ∧ w.sign a fields = .ok raw ∧
       ∃ t f nonce, params = tx :: t ∧ decodeTx tx (mem tx) = some (some f, nonce) ∧ addrOfJson f = some a ∧
         ∃ pre, nonceLookup script f nonce = .got pre n := by
   unfold sendTransaction
@@ -176,7 +182,7 @@ theorem sendTransaction_forwards (mem : Members) (w : Wallet) (script : Script) 
         · rw [List.filter_eq_nil_iff.mpr]
           · simp
           · intro x hx; have := List.all_eq_true.mp hnr x hx; simpa using this
-        · intro a tx n hmem
+        · intro a tx n fl raw hmem
           have := List.all_eq_true.mp hnr _ hmem
           simp [isRaw] at this
       · rename_i fw n hl
@@ -184,33 +190,38 @@ theorem sendTransaction_forwards (mem : Members) (w : Wallet) (script : Script) 
         have hfil : fw.filter isRaw = [] := by
           rw [List.filter_eq_nil_iff]
           intro x hx; have := List.all_eq_true.mp hnr x hx; simpa using this
-        unfold signAndSend
-        split
-        · constructor
+        have hold : (fw.filter isRaw).length ≤ 1 ∧
+            ∀ a tx n' fields raw, Fwd.rawTx a tx n' fields raw ∈ fw →
+              a ∈ w.accounts ∧ fields = txOfJson (mem tx) n' ∧ w.sign a fields = .ok raw ∧
+              ∃ t' f' nonce', p0 :: t = tx :: t' ∧ decodeTx tx (mem tx) = some (some f', nonce') ∧
+                addrOfJson f' = some a ∧ ∃ pre, nonceLookup script f' nonce' = .got pre n' := by
+          constructor
           · simp [hfil]
-          · intro a tx n' hmem
+          · intro a tx n' fl raw hmem
             have := List.all_eq_true.mp hnr _ hmem
             simp [isRaw] at this
+        unfold signAndSend
+        split
+        · exact hold
         · rename_i a ha
           split
-          · constructor
-            · simp [hfil]
-            · intro a' tx n' hmem
-              have := List.all_eq_true.mp hnr _ hmem
-              simp [isRaw] at this
+          · exact hold
           · rename_i hc
-            constructor
-            · simp [List.filter_append, hfil, List.filter, isRaw]
-            · intro a' tx n' hmem
-              rw [List.mem_append] at hmem
-              rcases hmem with hmem | hmem
-              · have := List.all_eq_true.mp hnr _ hmem
-                simp [isRaw] at this
-              · simp only [List.mem_singleton] at hmem
-                injection hmem with h1 h2 h3
-                subst h1 h2 h3
-                refine ⟨?_, t, f, nonce, rfl, hd, ha, fw, hl⟩
-                simpa using hc
+            split
+            · rename_i raw hs
+              constructor
+              · simp [List.filter_append, hfil, List.filter, isRaw]
+              · intro a' tx n' fl raw' hmem
+                rw [List.mem_append] at hmem
+                rcases hmem with hmem | hmem
+                · have := List.all_eq_true.mp hnr _ hmem
+                  simp [isRaw] at this
+                · simp only [List.mem_singleton] at hmem
+                  injection hmem with h1 h2 h3 h4 h5
+                  subst h1 h2 h3 h4 h5
+                  refine ⟨?_, rfl, hs, t, f, nonce, rfl, hd, ha, fw, hl⟩
+                  simpa using hc
+            · exact hold
 
 /-- **Nothing is submitted when `from` is unknown** (not an address, or not one the wallet holds). -/
 theorem unknown_from_nothing_submitted (mem : Members) (w : Wallet) (script : Script) (id : Json)
@@ -222,18 +233,96 @@ theorem unknown_from_nothing_submitted (mem : Members) (w : Wallet) (script : Sc
   intro x hx
   cases x with
   | plain m ps => simp [isRaw]
-  | rawTx a tx n =>
-    obtain ⟨hin, t, f, nonce, hp, hd, ha, _⟩ := (sendTransaction_forwards mem w script id params).2 a tx n hx
+  | rawTx a tx n fl raw =>
+    obtain ⟨hin, _, _, t, f, nonce, hp, hd, ha, _⟩ := (sendTransaction_forwards mem w script id params).2 a tx n fl raw hx
     exact absurd hin (h tx t f nonce a hp hd ha)
+
+/-- **Nothing is submitted when signing fails.** -/
+theorem sign_failure_nothing_submitted (mem : Members) (w : Wallet) (script : Script) (id : Json)
+    (params : List Json) (h : ∀ a tx raw, w.sign a tx ≠ .ok raw) :
+    ((sendTransaction mem w script id params).1.filter isRaw) = [] := by
+  rw [List.filter_eq_nil_iff]
+  intro x hx
+  cases x with
+  | plain m ps => simp [isRaw]
+  | rawTx a tx n fl raw =>
+    obtain ⟨_, _, hs, _⟩ := (sendTransaction_forwards mem w script id params).2 a tx n fl raw hx
+    exact absurd hs (h a fl raw)
 
 /-- **A well-formed eth_sendTransaction for a held account is forwarded exactly once** (nonce supplied). -/
 theorem sendTransaction_known (mem : Members) (w : Wallet) (script : Script) (id : Json) (tx f : Json)
-    (t : List Json) (k : Nat) (a : Bytes) (hd : decodeTx tx (mem tx) = some (some f, some k))
-    (ha : addrOfJson f = some a) (hw : a ∈ w.accounts) :
+    (t : List Json) (k : Nat) (a : Bytes) (raw : Bytes) (hd : decodeTx tx (mem tx) = some (some f, some k))
+    (ha : addrOfJson f = some a) (hw : a ∈ w.accounts) (hs : w.sign a (txOfJson (mem tx) (some k)) = .ok raw) :
     sendTransaction mem w script id (tx :: t) =
-      ([Fwd.rawTx a tx (some k)], (syncRequest script id "eth_sendRawTransaction").1,
+      ([Fwd.rawTx a tx (some k) (txOfJson (mem tx) (some k)) raw], (syncRequest script id "eth_sendRawTransaction").1,
         (syncRequest script id "eth_sendRawTransaction").2) := by
-  simp [sendTransaction, hd, nonceLookup, signAndSend, ha, hw]
+  simp [sendTransaction, hd, nonceLookup, signAndSend, ha, hw, hs]
+
+/-! ### what the submitted bytes are: C09 ∘ C08 ∘ C01 -/
+
+open FFS.Model.Secp FFS.Model.Tx in
+/-- C08's guarantee in the vocabulary of this model: whenever the wallet returns bytes for address `a`, they are
+    `Transaction.Sign` (automatic mode, the proxy's chain id) with a valid key whose address is `a`. -/
+def OwnerSigning (C : Curve) (cid : Int) (w : Wallet) : Prop :=
+  ∀ a tx raw, w.sign a tx = .ok raw → ∃ k, (1 ≤ k ∧ k < C.n) ∧ keyAddress C k = a ∧ raw = signTx C .auto tx k cid
+
+open FFS.Model.Secp FFS.Model.Tx in
+/-- a wallet holding the keys `keys`: it looks the address up and signs with the key found -/
+def keyWallet (C : Curve) (keys : List Nat) (cid : Int) : Wallet :=
+  { accounts := keys.map (keyAddress C),
+    sign := fun a tx => match keys.find? (fun k => keyAddress C k == a) with
+      | some k => .ok (signTx C .auto tx k cid)
+      | none => .err }
+
+open FFS.Model.Secp FFS.Model.Tx in
+/-- non-vacuity of `OwnerSigning`: the key-holding wallet is owner-signing -/
+theorem keyWallet_ownerSigning (C : Curve) (keys : List Nat) (cid : Int) (hkeys : ∀ k ∈ keys, 1 ≤ k ∧ k < C.n) :
+    OwnerSigning C cid (keyWallet C keys cid) := by
+  intro a tx raw h
+  simp only [keyWallet] at h
+  cases hf : keys.find? (fun k => keyAddress C k == a) with
+  | none => simp [hf] at h
+  | some k =>
+    simp only [hf, Outcome.ok.injEq] at h
+    have hm := List.mem_of_find?_eq_some hf
+    have hp := List.find?_some hf
+    exact ⟨k, hkeys k hm, by simpa using hp, h.symm⟩
+
+theorem txOfJson_to (kvs : List (String × Json)) (n : Option Nat) (a : Bytes)
+    (h : (txOfJson kvs n).to = some a) : a.length = 20 := by
+  simp only [txOfJson] at h
+  split at h
+  · rename_i s _
+    cases hs : FFS.Model.EthTypes.addressSetString s.toList with
+    | ok b =>
+      simp only [hs, Option.some.injEq] at h
+      subst h
+      exact ((C19.address_parse_iff _ _).mp hs).2
+    | err => simp [hs] at h
+    | panic => simp [hs] at h
+  · simp at h
+
+theorem txOfJson_nonce (kvs : List (String × Json)) (n : Option Nat) : (txOfJson kvs n).nonce = n := rfl
+
+open FFS.Model.Secp FFS.Model.Tx in
+/-- **The eth_sendRawTransaction payload recovers, under the proxy's chain id, to the requested `from` with the
+    requested fields and the supplied / reported nonce.** For every owner-signing wallet (C08), every request,
+    backend script and lawful curve: the bytes that reach the backend are a transaction from which
+    `RecoverRawTransaction` reads back exactly `from`, the decoded request fields with nonce `n` (absent integers as
+    0: `C01.normAuto`), and the specification signing payload. `C01.Fits`: integer fields are uint256 and the data is
+    below 1 GiB (the `to` part of it always holds for a decoded request: `txOfJson_to`). -/
+theorem submitted_recovers (C : Curve) (hC : C.Lawful) (cid : Int) (hc : 0 ≤ cid ∧ cid ≤ 2 ^ 53)
+    (mem : Members) (w : Wallet) (hw : OwnerSigning C cid w) (script : Script) (id : Json) (params : List Json)
+    (a : Bytes) (tx : Json) (n : Option Nat) (fields : Model.Tx.Tx) (raw : Bytes)
+    (hmem : Fwd.rawTx a tx n fields raw ∈ (sendTransaction mem w script id params).1)
+    (hfit : C01.Fits fields) :
+    fields = txOfJson (mem tx) n ∧ n.isSome = true ∧
+    recoverRaw C raw cid = .ok (a, C01.normAuto fields, payloadAuto fields cid) := by
+  obtain ⟨_, hf, hs, t, f, nonce, _, _, _, pre, hl⟩ := (sendTransaction_forwards mem w script id params).2 a tx n fields raw hmem
+  obtain ⟨k, hk, hka, hraw⟩ := hw a fields raw hs
+  refine ⟨hf, nonceLookup_definite script f nonce pre n hl, ?_⟩
+  rw [hraw, ← hka]
+  exact C01.recover_sign_auto C hC k hk fields cid hc hfit
 
 /-- **Batch responses are positionally aligned with their requests**: slot i is the response to member i, and
     carries member i's id; failures of other members do not move it. -/
